@@ -1225,6 +1225,9 @@ class Engine:
             return z3.BoolVal(l.qual == r.qual)
         if isinstance(l, VFunc) and isinstance(r, VFunc):
             return z3.BoolVal(l.name == r.name)
+        if isinstance(l, VOpaque) and isinstance(r, VOpaque):
+            # the same opaque value is identical to itself; two separately created opaque values may or may not be the same object
+            return z3.BoolVal(True) if l is r else self.fresh_bool("is").t
         if type(l) != type(r):
             if isinstance(l, VOpaque) or isinstance(r, VOpaque):
                 return self.fresh_bool("is").t
